@@ -45,16 +45,26 @@ func (c *clientWrapper) Call(ctx context.Context, req client.Request, rsp interf
 		slotChain := sentinel.BuildDefaultSlotChain()
 		slotChain.AddRuleCheckSlot(outlier.DefaultSlot)
 		slotChain.AddStatSlot(outlier.DefaultMetricStatSlot)
-		entry, _ := sentinel.Entry(
+		entry, blockErr := sentinel.Entry(
 			req.Service(),
 			sentinel.WithResourceType(base.ResTypeRPC),
 			sentinel.WithTrafficType(base.Outbound),
 			sentinel.WithSlotChain(slotChain),
 		)
+		if blockErr != nil {
+			if options.clientBlockFallback != nil {
+				return options.clientBlockFallback(ctx, req, blockErr)
+			}
+			return blockErr
+		}
 		defer entry.Exit()
 		opts = append(opts, WithSelectOption(entry))
 		opts = append(opts, WithCallWrapper(entry))
-		return c.Client.Call(ctx, req, rsp, opts...)
+		err := c.Client.Call(ctx, req, rsp, opts...)
+		if err != nil {
+			sentinel.TraceError(entry, err)
+		}
+		return err
 	}
 }
 
@@ -88,16 +98,26 @@ func (c *clientWrapper) Stream(ctx context.Context, req client.Request, opts ...
 		slotChain := sentinel.GlobalSlotChain()
 		slotChain.AddRuleCheckSlot(outlier.DefaultSlot)
 		slotChain.AddStatSlot(outlier.DefaultMetricStatSlot)
-		entry, _ := sentinel.Entry(
+		entry, blockErr := sentinel.Entry(
 			req.Service(),
 			sentinel.WithResourceType(base.ResTypeRPC),
 			sentinel.WithTrafficType(base.Outbound),
 			sentinel.WithSlotChain(slotChain),
 		)
+		if blockErr != nil {
+			if options.streamClientBlockFallback != nil {
+				return options.streamClientBlockFallback(ctx, req, blockErr)
+			}
+			return nil, blockErr
+		}
 		defer entry.Exit()
 		opts = append(opts, WithSelectOption(entry))
 		opts = append(opts, WithCallWrapper(entry))
-		return c.Client.Stream(ctx, req, opts...)
+		stream, err := c.Client.Stream(ctx, req, opts...)
+		if err != nil {
+			sentinel.TraceError(entry, err)
+		}
+		return stream, err
 	}
 }
 
